@@ -646,7 +646,11 @@ def check_r5(facts, rep, crate):
                         seq.insert(0, k)
                     else:
                         undecided = True
-            if undecided or "HALF" not in seq:
+            if not undecided and "HALF" in seq and "TAIL" not in seq:
+                rep.bad(rid, "%s/chunk-order" % b.path, where,
+                        "the whole chunks that follow the split chunk are not moved to the new chain (sequence %s): they stay in the original chain "
+                        "although its cached length was cut to the split position" % seq)
+            elif undecided or "HALF" not in seq:
                 rep.bad(rid, "%s/chunk-order" % b.path, where, "cannot decide the chunk order of the vector built here (ops %s; fail closed)" % [o[2] for o in ops])
             elif "TAIL" in seq and seq.index("TAIL") < seq.index("HALF"):
                 rep.bad(rid, "%s/chunk-order" % b.path, where,
